@@ -145,7 +145,6 @@ static UNSORTED_OPTS: &[&dyn Optimization] = &[
     &((Sort, Last), LastSort),
     &((Pop, Rand), ReplaceRand),
     &((Pop, Pop, Rand), ReplaceRand2),
-    &((-1, Pow), Reciprocal),
     &((2, Pow), (Dup, Mul)),
     &((3, Pow), (Dup, Dup, Mul, Mul)),
     &((4, Pow), (Dup, Mul, Dup, Mul)),
